@@ -37,6 +37,10 @@ Clauses(e) ==
         <<"P07.schema", e.to_exc = "" => (valid /\ (e.js_ran => e.js_ok))>>,
         <<"P07.equal", okrun => (e.eq /\ e.hash)>>,
         <<"P07.code", okrun => e.code>>,
+        \* C12 on the JSON codec: arguments untouched, repeatable, no aliasing with returned documents
+        <<"P12.json_pure", okrun => (e.pure_to /\ e.pure_from)>>,
+        <<"P12.json_repeat", okrun => e.repeat_eq>>,
+        <<"P12.json_alias", okrun => ~e.alias>>,
         \* the constant's JSON is the documented form (binding of CPyConst!ToJson)
         <<"M.tojson", (e.has_term /\ e.to_exc = "" /\ ~e.absent /\ e.pos \in {"operand", "additional", "nested"}) =>
               J!CanonTree(e.ctree) = J!CanonTree(C!ToJson(TermOf(e.term)))>>
